@@ -1,4 +1,6 @@
 """Sidecar contracts for sqlparse/sql.py (token tree)."""
+import ast
+
 import z3
 
 from pyvc.spec import contract, REG
@@ -241,6 +243,42 @@ def _transfer_allws(ex, st, lst, lo, hi, pred):
             st.assume(ex.allws_term(st, sg['base'], sg['lo'], sg['hi']))
 
 
+def _link_known_predicates(ex, st, me, lst, pos, tok, current):
+    """purity links for the OTHER predicate closures that interval summaries of this list already speak about: the value
+    of MATCH(p, list, pos) is what the closure p returns on the element now materialised at pos"""
+    from pyvc.heap import MATCHF, snapshot_id, pred_id, _PIDS
+    reg = st.ghost.get('__mfacts__') or {'M': [], 'N': []}
+    snap = snapshot_id(st, lst)
+    cur = pred_id(current)
+    pids = {e[0] for e in reg['M'] if e[1] == snap} | {e[0] for e in reg['N'] if e[1] == snap}
+    for pid in sorted(pids):
+        if pid == cur:
+            continue
+        f = [v[1] for v in _PIDS.values() if v[0] == pid]
+        if not f or not isinstance(f[0], Func):
+            continue
+        marks = len(ex.goals)
+        try:
+            probe = st.fork()
+            n0 = len(probe.pc)
+            rr = ex.call(f[0], [tok], {}, probe)
+            # the closure may branch: its value is the disjunction over its (exhaustive) paths of path-condition & result
+            parts = []
+            for s_i, v_i in rr:
+                b = ex.truth(v_i, s_i)
+                zb = z3.BoolVal(b) if isinstance(b, bool) else b
+                extra = [c for c in s_i.pc[n0:]]
+                parts.append(z3.And(*(extra + [zb])) if extra else zb)
+            if parts:
+                val = z3.Or(*parts) if len(parts) > 1 else parts[0]
+                # (through the spec function, so that the interval laws are instantiated at this position)
+                m = ex.spec_fn('MATCH', [f[0], me, SInt(pos)], {}, st)[0][1]
+                st.assume(m.z == val)
+        except (OutsideSubset, PyExc):
+            pass
+        del ex.goals[marks:]
+
+
 class _TokenMatchingCallsite:
     """modular use of the two verified cases above: assert the precondition, create the result, assume exactly the
     `ensures` strings of the verified case, and link MATCH to the concrete predicate passed (a pure closure)"""
@@ -335,6 +373,8 @@ class _TokenMatchingCallsite:
             s2.assume(nm2.z)
             if not reverse and single is not None:
                 _transfer_allws(ex, s2, lst, zs, r0, single)
+            if getattr(getattr(ex, 'top_contract', None), 'link_all_predicates', False):
+                _link_known_predicates(ex, s2, me, lst, r0, tok, funcs)
             res = (SInt(r0), tok)
             fs = funcs if isinstance(funcs, (tuple, list)) else (funcs,)
             if isinstance(funcs, LRef) and all(it[0] == 'el' for it in s2.lists[funcs.lid]):
@@ -465,21 +505,62 @@ def make_statement(ex, st):
     return g
 
 
+def make_statement_ax(ex, st):
+    g = make_statement(ex, st)
+    for it in st.lists[st.objs[g.oid]['tokens'].lid]:
+        if it[0] == 'seg':
+            ex.segs(st)[it[1]]['uni']['__class_axioms__'] = True
+    return g
+
+
+def _cte_bind(ex, head):
+    """ghosts of the CTE walk, computed at every loop head from the (unmodified) list with the verified search helpers:
+    J = (index, node) of the first Identifier / IdentifierList child behind the WITH keyword, N1 = the next child
+    behind J that is not whitespace"""
+    out = []
+    old_spec, ex._in_spec = getattr(ex, '_in_spec', False), True
+    try:
+        for s1, j in ex.eval(ast.parse('self.token_next_by(i=(Identifier, IdentifierList), idx=entry(tidx))', mode='eval').body, head):
+            s1.ghost['J'] = j
+            if j[0] is None:
+                s1.ghost['N1'] = (None, None)
+                out.append(s1)
+                continue
+            for s2, n1 in ex.eval(ast.parse('self.token_next(J[0])', mode='eval').body, s1):
+                s2.ghost['N1'] = n1
+                out.append(s2)
+    finally:
+        ex._in_spec = old_spec
+    return [s for s in out if smt.feasible(s.pc)]
+
+
 @contract('sqlparse.sql.Statement.get_type')
 class get_type_c:
     """get_type() looks only at the first child that is neither whitespace nor a comment (F): DML/DDL -> its
-    normalized text; CTE -> the normalized text of some DML keyword (or UNKNOWN); anything else (or nothing) ->
-    UNKNOWN.  It raises nothing."""
+    normalized text; anything else but WITH (or nothing) -> UNKNOWN; WITH -> if the first Identifier / IdentifierList
+    child behind it (the CTE definitions, I1) is directly followed by a DML keyword (N1), that keyword's normalized
+    text.  It raises nothing."""
     exec_class = HeapExec
-    params = {'self': make_statement}
+    params = {'self': make_statement_ax}
     requires = []
-    loops = {'0': {'inv': ['tidx is None or (0 <= tidx and tidx < len(self.tokens))']}}
-    post_bind = {'F': 'self.token_first(skip_cm=True)'}
+    link_all_predicates = True
+    loops = {'0': {'bind': _cte_bind, 'entry_bind': _cte_bind,
+                   'inv': ['tidx is None or (0 <= tidx and tidx < len(self.tokens))',
+                           # as long as the walk has not reached the CTE definitions it is still in front of them; once
+                           # it reaches them it returns the DML keyword that follows (if one follows)
+                           'True if (J[1] is None or N1[1] is None or N1[1].ttype != T.Keyword.DML) else '
+                           '(tidx is not None and tidx < J[0])']}}
+    post_bind = {'F': 'self.token_first(skip_cm=True)',
+                 'I1': 'self.token_next_by(i=(Identifier, IdentifierList), idx=self.token_index(F)) '
+                       'if (F is not None and F.ttype == T.Keyword.CTE) else (None, None)',
+                 'N1': 'self.token_next(I1[0]) if I1[0] is not None else (None, None)'}
     ensures = [
         "result == 'UNKNOWN' if F is None else True",
         "result == F.normalized if (F is not None and F.ttype in (T.Keyword.DML, T.Keyword.DDL)) else True",
         "result == 'UNKNOWN' if (F is not None and F.ttype not in (T.Keyword.DML, T.Keyword.DDL, T.Keyword.CTE)) "
         "else True",
+        "result == N1[1].normalized if (F is not None and F.ttype == T.Keyword.CTE and I1[1] is not None "
+        "and N1[1] is not None and N1[1].ttype == T.Keyword.DML) else True",
     ]
     raises = []
     serves = ['C18', 'C07']
